@@ -4,37 +4,37 @@ DEFERRED = "rules for this property are not armed yet (build order: DESIGN.md Ap
 CLAIMS = {
     "C18": {
         "level": "other",
-        "text": "Shape clauses of the TLS upgrade (default-features build): the TLS stream is seeded with bytes[len-remaining..] (affine) and remaining := 0 on every path, the prepending reader is Cursor(prepended.to_vec()).chain(socket) and forwards write/flush to the socket half, SwitchableConn forwards read/write/flush to the active variant in all 6 arms, the plain socket is taken out and wrapped (no second handle), the switch has one call site reached in a clean connection state, a client requesting TLS without a configuration is refused before the shim, and the TLS path runs switch -> read -> parse(after_tls) -> username -> certificates -> after_authentication. The behaviour of rustls over arbitrary chunkings, certificate delivery and absence of plaintext produced inside rustls are NOT decided. The delegation receiver is the variant's payload itself (not a part of the TLS session); CLIENT_SSL is tested on the capability word the client sent, unmasked.",
+        "text": "Shape clauses of the TLS upgrade (default-features build): the TLS stream is seeded with bytes[len-remaining..] (affine) and remaining := 0 on every path, the prepending reader is Cursor(prepended.to_vec()).chain(socket) and forwards write/flush to the socket half, SwitchableConn forwards read/write/flush to the active variant in all 6 arms, the plain socket is taken out and wrapped (no second handle), the switch has one call site reached in a clean connection state, a client requesting TLS without a configuration is refused before the shim, and the TLS path runs switch -> read -> parse(after_tls) -> username -> certificates -> after_authentication. The behaviour of rustls over arbitrary chunkings, certificate delivery and absence of plaintext produced inside rustls are NOT decided. The delegation receiver is the variant's payload itself (not a part of the TLS session); CLIENT_SSL is tested on the capability word the client sent, unmasked. The wire bundle (C04 framing + C05 sequence rules) is evaluated here as well: after the switch the transport accepts short writes.",
         "note": "Trusted: rustls, std::io::Chain/Cursor. Relies on C01.window-invariant for the meaning of bytes[len-remaining..].",
         "technique": "affine slice-offset analysis, delegation table check, typestate at the switch site, path-order rules over the handshake",
     },
     "C06": {
         "level": "other",
-        "text": "Cell framing, NULL marker and text grammar of the text protocol encoders: every to_mysql_text path emits exactly one lenenc string through the library writer, or FB (only on the None path), or one delegation; text-mode write_col encodes once into the connection and end_row ends one packet; the compiled format_args! template of each encoder is decoded and compared, with the origin of each argument, to the MySQL literal grammar (`{}` of the value for integers/floats; %04-%02-%02 [%02:%02:%02[.%06]] of the named chrono accessors with the fraction exactly when non-zero; TIME %02:%02:%02[.%06] of secs/3600, secs%3600/60, secs%60, subsec_micros). What Display prints for numbers and how a client parses text back is NOT decided (std / client behaviour). Cells of 16 MiB and more are split by the framer, so the framing clauses of C04 (sole writer, header = payload, split threshold, empty terminator, write progress) are evaluated here as well.",
+        "text": "Cell framing, NULL marker and text grammar of the text protocol encoders: every to_mysql_text path emits exactly one lenenc string through the library writer, or FB (only on the None path), or one delegation; text-mode write_col encodes once into the connection and end_row ends one packet; the compiled format_args! template of each encoder is decoded and compared, with the origin of each argument, to the MySQL literal grammar (`{}` of the value for integers/floats; %04-%02-%02 [%02:%02:%02[.%06]] of the named chrono accessors with the fraction exactly when non-zero; TIME %02:%02:%02[.%06] of secs/3600, secs%3600/60, secs%60, subsec_micros). What Display prints for numbers and how a client parses text back is NOT decided (std / client behaviour). Cells of 16 MiB and more are split by the framer, so the framing clauses of C04 (sole writer, header = payload, split threshold, empty terminator, write progress) are evaluated here as well. The sequence-id clauses of C05 (stamp and wrap, reset per exchange) are evaluated together with them (one `wire bundle`).",
         "note": "Trusted: write_lenenc_str; core::fmt Display for integers and floats; the template encoding of this toolchain's core::fmt (a different encoding fails closed).",
         "technique": "emission-sequence analysis + decoding of compiled format templates with def-use of their arguments",
     },
     "C07": {
         "level": "other",
-        "text": "Binary row layout rules: bitmap length (n+9)/8 and NULL bit (c+2)/8, (c+2)%8 as affine normal forms (offset 2 in all three places, for every column count); row header 00 once at column 0 followed by a zero-filled bitmap of bitmap_len bytes, relying on the buffer being empty (constructor + clear() in end_row, which writes the buffer whole before exactly one packet end); NULL for NOT NULL refused, NULL never encoded, non-NULL never sets a bit; per (impl, column-type arm) emission layouts for f32/f64/byte strings/DATE/DATETIME/TIME vs the protocol, with length-byte self-consistency, slot sources by accessor name, TIME div/mod formulas, zero-length TIME only when seconds and micros are zero, 7-byte DATETIME exactly when the fraction is zero, other column types refused. Rows of 16 MiB and more are split by the framer, so the framing clauses of C04 are evaluated here as well.",
+        "text": "Binary row layout rules: bitmap length (n+9)/8 and NULL bit (c+2)/8, (c+2)%8 as affine normal forms (offset 2 in all three places, for every column count); row header 00 once at column 0 followed by a zero-filled bitmap of bitmap_len bytes, relying on the buffer being empty (constructor + clear() in end_row, which writes the buffer whole before exactly one packet end); NULL for NOT NULL refused, NULL never encoded, non-NULL never sets a bit; per (impl, column-type arm) emission layouts for f32/f64/byte strings/DATE/DATETIME/TIME vs the protocol, with length-byte self-consistency, slot sources by accessor name, TIME div/mod formulas, zero-length TIME only when seconds and micros are zero, 7-byte DATETIME exactly when the fraction is zero, other column types refused. Rows of 16 MiB and more are split by the framer, so the framing clauses of C04 are evaluated here as well. The sequence-id clauses of C05 (stamp and wrap, reset per exchange) are evaluated together with them (one `wire bundle`). The 00 row header is required exactly once in front of the bitmap of each row packet, wherever it is written (column 0 of write_col or end_row).",
         "note": "Trusted: chrono accessors, lenenc writer. Integer exactness is C15's. Generic Value::Date/Time conversion through chrono is not decided.",
         "technique": "affine normal forms, emission-sequence analysis per column-type arm, path rules on write_col/end_row",
     },
     "C08": {
         "level": "other",
-        "text": "Reader-side layout rules for COM_STMT_EXECUTE parameters: NULL bitmap = payload[0..(params+7)/8) (affine), NULL test = byte col/8 bit col%8, per column-type arm and unsigned flag of the value parser the exact sequence of stateful cursor reads (widths, signedness, lenenc + guarded split, length byte + guarded split) and the variant produced, widening only; one column increment per yielded parameter, stop at col >= params, params = the statement's declared count; encoder/decoder agree on the 14 byte-string column types; the temporal converters' accepted length forms vs the protocol's, and satisfiability of every length test given the bytes already consumed (found and fixed: microseconds never decoded, 4-byte DATETIME panicked; zero-date forms remain known findings). Flag byte / type table / value start offsets are C16's rules. A parameter sent as long data is one of the bound values: C17's rules (append-only storage under the looked-up statement, inline path only after a lookup that found nothing, cleared after execute, per-statement isolation) are evaluated here as well.",
+        "text": "Reader-side layout rules for COM_STMT_EXECUTE parameters: NULL bitmap = payload[0..(params+7)/8) (affine), NULL test = byte col/8 bit col%8, per column-type arm and unsigned flag of the value parser the exact sequence of stateful cursor reads (widths, signedness, lenenc + guarded split, length byte + guarded split) and the variant produced, widening only; one column increment per yielded parameter, stop at col >= params, params = the statement's declared count; encoder/decoder agree on the 14 byte-string column types; the temporal converters' accepted length forms vs the protocol's, and satisfiability of every length test given the bytes already consumed (found and fixed: microseconds never decoded, 4-byte DATETIME panicked; zero-date forms remain known findings). Flag byte / type table / value start offsets are C16's rules. A parameter sent as long data is one of the bound values: C17's rules (append-only storage under the looked-up statement, inline path only after a lookup that found nothing, cleared after execute, per-statement isolation) are evaluated here as well. C01's reassembly rules (the EXECUTE payload is the reassembled message) are evaluated here as well.",
         "note": "Trusted: mysql_common::read_lenenc_int, chrono constructors, IEEE widening, byteorder cursor reads. Value equality through chrono/float formatting is not decided.",
         "technique": "cursor/read-sequence analysis over enumerated paths per column-type arm, affine normal forms, length-form satisfiability",
     },
     "C01": {
         "level": "other",
-        "text": "Mechanism clauses that make reassembly independent of chunking, decided symbolically: single transport read site and window-field ownership; the receive-window invariant start + remaining = len(bytes) established on entry and re-established around the read loop (inductive check with a Vec length model and a ghost `consumed prefix` counter: parser gets bytes[start..], remaining := len(rest), drain removes exactly the consumed prefix, the transport reads into bytes[old_len..], len := end + n); short buffers (parser Incomplete/Error) lead to another read, only Failure is an error; framing constants of the two packet parsers as affine cursor offsets (u24 length @0, sequence @3, payload @4 of exactly that length / ffffff + 0xFFFFFF bytes) and in-order appends of fragments. Byte-for-byte equality through nom's combinators is not decided (trusted library). The reader goes (back) to the transport without a parse attempt only on a path that established remaining == 0 (entry/header → read and read → read paths); a verdict the framing parsers build themselves (fragment ids out of order) is a Failure, never Error/Incomplete, which the reader takes as `read more`. The read buffer is resized to a length that exceeds the buffered length for every length (the transport is never handed an empty buffer).",
+        "text": "Mechanism clauses that make reassembly independent of chunking, decided symbolically: single transport read site and window-field ownership; the receive-window invariant start + remaining = len(bytes) established on entry and re-established around the read loop (inductive check with a Vec length model and a ghost `consumed prefix` counter: parser gets bytes[start..], remaining := len(rest), drain removes exactly the consumed prefix, the transport reads into bytes[old_len..], len := end + n); short buffers (parser Incomplete/Error) lead to another read, only Failure is an error; framing constants of the two packet parsers as affine cursor offsets (u24 length @0, sequence @3, payload @4 of exactly that length / ffffff + 0xFFFFFF bytes) and in-order appends of fragments. Byte-for-byte equality through nom's combinators is not decided (trusted library). The reader goes (back) to the transport without a parse attempt only on a path that established remaining == 0 (entry/header → read and read → read paths); a verdict the framing parsers build themselves (fragment ids out of order) is a Failure, never Error/Incomplete, which the reader takes as `read more`. The read buffer is resized to a length that exceeds the buffered length for every length (the transport is never handed an empty buffer). The fragment fold advances its id with every fragment and the in-order test compares the new id with wrapping_add(previous, 1).",
         "note": "Trusted: nom combinators return a suffix of their input; Read contract; Vec semantics.",
         "technique": "symbolic (affine) evaluation of buffer bookkeeping along enumerated loop paths with an inductive invariant check; cursor-offset analysis",
     },
     "C15": {
         "level": "proof",
-        "text": "Exhaustive path-sensitive interval analysis of all 10 integer encoders x 6 integer column types x 2 signednesses plus the generic Int/UInt arms: on every writing path the written width equals the wire width, the accepted interval (from the path's comparisons / TryFrom results, constants folded with wrapping semantics) is included in every intermediate type and in the client's read type (so the decoded number equals the source for all accepted values; a concrete counterexample is produced otherwise), whole fixed-width ranges are accepted whenever the column can hold them, usize/isize accept exactly range(T) ∩ range(column), and non-writing paths return Err or diverge. All obligations discharge on the repaired tree (two defects found and fixed: sign-extension of negatives into unsigned columns; always-refused usize/isize).",
+        "text": "Exhaustive path-sensitive interval analysis of all 10 integer encoders x 6 integer column types x 2 signednesses plus the generic Int/UInt arms: on every writing path the written width equals the wire width, the accepted interval (from the path's comparisons / TryFrom results, constants folded with wrapping semantics) is included in every intermediate type and in the client's read type (so the decoded number equals the source for all accepted values; a concrete counterexample is produced otherwise), whole fixed-width ranges are accepted whenever the column can hold them, usize/isize accept exactly range(T) ∩ range(column), and non-writing paths return Err or diverge. All obligations discharge on the repaired tree (two defects found and fixed: sign-extension of negatives into unsigned columns; always-refused usize/isize). What the client decodes depends on the column definition that announces the column: C09's column-definition rules (type byte and flags word are the column's own, unmodified) are evaluated here as well; a generic arm that delegates to an unmodelled callee fails closed.",
         "note": "Trusted base: exporter, the cast/From/TryFrom interval model for a 64-bit target, byteorder's LE two's-complement writes. The column's representable range is taken to be its wire range.",
         "technique": "path-sensitive interval abstract interpretation over MIR (trace partitioning by column arm and signedness)",
     },
@@ -64,31 +64,31 @@ CLAIMS = {
     },
     "C03": {
         "level": "other",
-        "text": "Structural clauses of the response discipline: (1) the writer API is linear by types — completing methods consume self, writers are neither Clone nor Copy, fields and constructors are private (signature/impl/ADT tables from the type-checked program; thorough tier: 10 compile_fail witnesses with compiling twins); (2) the pending terminator is flushed first with more_results=true in start/complete_one/error and with false in no_more_results/Drop, the status word carries bit 0x0008 exactly on the more_results path, consumed with take(); (3) Finalizer::Ok iff zero columns, Eof otherwise, none on finish_error; (4) Drop impls complete; (5) per enumerated loop-iteration path: no-reply commands write nothing, library-answered commands always write, default shim methods use their writer (found and fixed: default on_init sent no reply); (6) a row packet ends only on paths whose conditions imply col == columns.len(), binary cells only after columns.get(col). The packet grammar for arbitrary writer programs is NOT decided. The OK and EOF packet layouts (position of the status word that carries the more-results bit) are checked on the symbolic byte stream; every store of a new pending terminator in a QueryResultWriter method is preceded by finalize on all paths; C04's framing clauses are evaluated here as well.",
+        "text": "Structural clauses of the response discipline: (1) the writer API is linear by types — completing methods consume self, writers are neither Clone nor Copy, fields and constructors are private (signature/impl/ADT tables from the type-checked program; thorough tier: 10 compile_fail witnesses with compiling twins); (2) the pending terminator is flushed first with more_results=true in start/complete_one/error and with false in no_more_results/Drop, the status word carries bit 0x0008 exactly on the more_results path, consumed with take(); (3) Finalizer::Ok iff zero columns, Eof otherwise, none on finish_error; (4) Drop impls complete; (5) per enumerated loop-iteration path: no-reply commands write nothing, library-answered commands always write, default shim methods use their writer (found and fixed: default on_init sent no reply); (6) a row packet ends only on paths whose conditions imply col == columns.len(), binary cells only after columns.get(col). The packet grammar for arbitrary writer programs is NOT decided. The OK and EOF packet layouts (position of the status word that carries the more-results bit) are checked on the symbolic byte stream; every store of a new pending terminator in a QueryResultWriter method is preceded by finalize on all paths; C04's framing clauses are evaluated here as well. The sequence-id clauses of C05 (stamp and wrap, reset per exchange) are evaluated together with them (one `wire bundle`).",
         "note": "Trusted: rustc's move checking; protocol grammar of OK/EOF/ERR as encoded in spec/. Does not model arbitrary shim programs.",
         "technique": "type-level typestate (signature tables + compile_fail witnesses), path rules with branch-condition bounds, effect analysis per loop-iteration path",
     },
     "C14": {
         "level": "other",
-        "text": "OK-packet layout on every Ok path with both counts being the u64 parameters handed unmodified to the library lenenc writer; def-use of (rows, last_insert_id) from complete_one through the Finalizer aggregate into the OK writer's parameters in order; zero-column counter: +1 per end_row on every zero-column path, untouched by write_col, exactly one end_row per write_row, starts at 0, and completion reads the counter on a path on which nothing may have modified it (clobber-aware path-precise load) with last_insert_id 0. The OK layout is compared on the symbolic byte stream; C04's framing clauses are evaluated here as well.",
+        "text": "OK-packet layout on every Ok path with both counts being the u64 parameters handed unmodified to the library lenenc writer; def-use of (rows, last_insert_id) from complete_one through the Finalizer aggregate into the OK writer's parameters in order; zero-column counter: +1 per end_row on every zero-column path, untouched by write_col, exactly one end_row per write_row, starts at 0, and completion reads the counter on a path on which nothing may have modified it (clobber-aware path-precise load) with last_insert_id 0. The OK layout is compared on the symbolic byte stream; C04's framing clauses are evaluated here as well. The sequence-id clauses of C05 (stamp and wrap, reset per exchange) are evaluated together with them (one `wire bundle`).",
         "note": "Trusted: mysql_common::write_lenenc_int size classes.",
         "technique": "emission-sequence analysis + path-precise def-use with memory clobber tracking (field-write summaries)",
     },
     "C19": {
         "level": "other",
-        "text": "Error-discipline rules on every Result-producing call site in non-test code (def-use to `?`, tail return, adaptor chains or an explicit match whose Err arm cannot reach an Ok return), the reader's Ok(None) only under read==0 && empty buffer with the sibling EOF-inside-packet path returning Err, Ok exits of the command loop only from the reader's None arm or Quit, every reader result in the handshake turned into an error on None, identity conversion of shim errors, no shim callback reachable after an error-building block, an inventory of unwrap/expect on connection-touching io results (found and fixed: the two Drop impls panicked on a transport error), and the deferred-error channel that replaced them (Drop hands the finaliser's error to the connection on every error path, flush returns it before doing anything else).",
+        "text": "Error-discipline rules on every Result-producing call site in non-test code (def-use to `?`, tail return, adaptor chains or an explicit match whose Err arm cannot reach an Ok return), the reader's Ok(None) only under read==0 && empty buffer with the sibling EOF-inside-packet path returning Err, Ok exits of the command loop only from the reader's None arm or Quit, every reader result in the handshake turned into an error on None, identity conversion of shim errors, no shim callback reachable after an error-building block, an inventory of unwrap/expect on connection-touching io results (found and fixed: the two Drop impls panicked on a transport error), and the deferred-error channel that replaced them (Drop hands the finaliser's error to the connection on every error path, flush returns it before doing anything else). The flush that reports a deferred error is C12's: its rules (flush complete before every wait, on every path) are evaluated here as well.",
         "note": "Trusted: dependencies do not swallow errors; panics inside the shim are the shim's. Fault injection at run time is not performed: the rules are necessary conditions on all paths.",
         "technique": "def-use result-discipline analysis, path rules on enumerated CFG paths, reachability from error blocks",
     },
     "C09": {
         "level": "other",
-        "text": "Writer-side wire-layout analysis: emission sequences of the column-definition, resultset-header and PREPARE_OK writers on every Ok path vs the protocol layouts — slot kinds/widths, constants, which Column field feeds which slot, 0x0c fixed-field length vs bytes actually emitted, one packet per definition, count = lenenc(iter.len()) of the same iterator through the library lenenc writer without narrowing, PREPARE_OK field order and single u16 casts, EOF policy. Independent of name content/length and of counts (up to the u16 bound). C04's framing clauses (one transport write site, whole pending packet, in order) are evaluated here as well.",
+        "text": "Writer-side wire-layout analysis: emission sequences of the column-definition, resultset-header and PREPARE_OK writers on every Ok path vs the protocol layouts — slot kinds/widths, constants, which Column field feeds which slot, 0x0c fixed-field length vs bytes actually emitted, one packet per definition, count = lenenc(iter.len()) of the same iterator through the library lenenc writer without narrowing, PREPARE_OK field order and single u16 casts, EOF policy. Independent of name content/length and of counts (up to the u16 bound). C04's framing clauses (one transport write site, whole pending packet, in order) are evaluated here as well. The sequence-id clauses of C05 (stamp and wrap, reset per exchange) are evaluated together with them (one `wire bundle`).",
         "note": "Trusted: mysql_common lenenc writers; byteorder. Counts > 65535 out of the property's range.",
         "technique": "emission-sequence (wire layout) extraction over enumerated Ok-paths with origin terms per slot",
     },
     "C02": {
         "level": "other",
-        "text": "Command-byte table extracted from the parser's MIR vs the protocol table (9 pairs, bijective); affine cursor offsets of Execute/SendLongData/Close fields vs the request layouts; per enumerated path through one loop iteration: which shim callbacks are reached and how often (table), none in inner loops; the text handed to the shim is the Ok payload of a checked from_utf8 over the command's whole payload (USE: payload[len(matched prefix)..] then trims only), ids are the variant's stmt; invalid UTF-8 exits with an error before any callback; slice starts agree with the prefix matched on that path.",
+        "text": "Command-byte table extracted from the parser's MIR vs the protocol table (9 pairs, bijective); affine cursor offsets of Execute/SendLongData/Close fields vs the request layouts; per enumerated path through one loop iteration: which shim callbacks are reached and how often (table), none in inner loops; the text handed to the shim is the Ok payload of a checked from_utf8 over the command's whole payload (USE: payload[len(matched prefix)..] then trims only), ids are the variant's stmt; invalid UTF-8 exits with an error before any callback; slice starts agree with the prefix matched on that path. A delivered command presupposes a faithful packet reader: C01's reassembly rules are evaluated here as well.",
         "note": "Trusted: nom combinator semantics, str::trim*. Does not decide what trim yields for each spelling of USE (string values).",
         "technique": "MIR table extraction, affine cursor-offset analysis, path-precise def-use on enumerated CFG paths",
     },
@@ -118,7 +118,7 @@ CLAIMS = {
     },
     "C13": {
         "level": "other",
-        "text": "Static table + dataflow check: the 886 ErrorKind discriminants are compared with the MIR switch tables of From<u16> and sqlstate() (bijection, totality, 5-byte states), the ERR writer's emission sequence is compared slot by slot with the protocol layout including the source of each slot, and the four public error entry points are followed by def-use to the ERR writer. Complete for the finite table clause; decides forwarding for all messages because the message is passed through untouched. The code→kind and kind→SQLSTATE tables are read off by path enumeration (match arms, or-patterns, wildcard arms, if-chains, helpers), the ERR layout is compared on the symbolic byte stream, and C04's framing clauses are evaluated here as well.",
+        "text": "Static table + dataflow check: the 886 ErrorKind discriminants are compared with the MIR switch tables of From<u16> and sqlstate() (bijection, totality, 5-byte states), the ERR writer's emission sequence is compared slot by slot with the protocol layout including the source of each slot, and the four public error entry points are followed by def-use to the ERR writer. Complete for the finite table clause; decides forwarding for all messages because the message is passed through untouched. The code→kind and kind→SQLSTATE tables are read off by path enumeration (match arms, or-patterns, wildcard arms, if-chains, helpers), the ERR layout is compared on the symbolic byte stream, and C04's framing clauses are evaluated here as well. The sequence-id clauses of C05 (stamp and wrap, reset per exchange) are evaluated together with them (one `wire bundle`). The ERR packet starts on a packet boundary: a refusal handed back to the shim by write_col/end_row/write_row has put nothing into the packet on that path, and finish_inner reaches Ok only with the pending row ended, none pending, or merely staged (found and fixed: the binary row header was buffered before the first value was encoded, so an error after a refused first cell arrived as 00 ff ..).",
         "note": "Trusted: rustc's MIR for match/enum casts, the msqlx exporter, byteorder/std write semantics. Client-side decoding is not analysed.",
         "technique": "MIR switch-table extraction, emission-sequence (wire layout) analysis, def-use of call arguments",
     },
